@@ -1,5 +1,114 @@
-import PyAirtouch.Model.Sock
-/-! placeholder until the proof files are merged -/
+import PyAirtouch.Lemmas.SockConn
+/-!
+# C07 — the client never holds two connections; abandoned ones are closed
+
+`conns[i]` is the transport returned by the `i`-th successful `open_connection`; it is *held open*
+iff it is `live` (neither the client nor the network has closed it).  `rw` is the index of the
+client's current reader/writer pair.  Every statement holds for every reachable state, i.e. for
+every label sequence: every schedule of the tasks and every behaviour of the environment.
+-/
 namespace PyAirtouch.Props.C07
-theorem C07_placeholder : True := trivial
+open PyAirtouch.Model.Sock PyAirtouch.Spec.Trace PyAirtouch.Lemmas.SockConn
+
+/-- every transport the client still holds open is its current reader/writer -/
+theorem C07_held_open_is_current {s : Sys} (h : Reachable s) :
+    ∀ i : Nat, (s.core.conns[i]?.map ConnSt.isLive) = some true → s.core.rw = some i :=
+  (inv_reachable h).core.live_rw
+
+/-- non-vacuity: after open, connect, `reset_connection` and a reconnect, transport 1 is held open -/
+example : ∃ s, Reachable s ∧ (s.core.conns[1]?.map ConnSt.isLive) = some true ∧ s.core.conns.length = 2 :=
+  ⟨_, ⟨[.apiOpen, .run 1 .go, .run 1 .openOk, .run 1 .go, .apiReset, .envLostRan 0, .run 3 .go, .run 3 .go,
+        .run 4 .go, .run 4 .openOk], rfl⟩, by decide⟩
+
+/-- the client never holds two connections open -/
+theorem C07_at_most_one_connection {s : Sys} (h : Reachable s) :
+    ∀ i j : Nat, (s.core.conns[i]?.map ConnSt.isLive) = some true →
+      (s.core.conns[j]?.map ConnSt.isLive) = some true → i = j := by
+  intro i j hi hj
+  have h1 := C07_held_open_is_current h i hi
+  have h2 := C07_held_open_is_current h j hj
+  rw [h1] at h2; exact Option.some.inj h2
+
+/-- non-vacuity: a state with a held-open transport (and an older, closed one) -/
+example : ∃ s, Reachable s ∧ (s.core.conns[1]?.map ConnSt.isLive) = some true ∧
+    (s.core.conns[0]?.map ConnSt.isLive) = some false :=
+  ⟨_, ⟨[.apiOpen, .run 1 .go, .run 1 .openOk, .run 1 .go, .apiReset, .envLostRan 0, .run 3 .go, .run 3 .go,
+        .run 4 .go, .run 4 .openOk], rfl⟩, by decide⟩
+
+/-- every connection ever opened that is not the current one is closing or closed -/
+theorem C07_abandoned_are_closed {s : Sys} (h : Reachable s) :
+    ∀ i : Nat, i < s.core.conns.length → s.core.rw ≠ some i →
+      (s.core.conns[i]?.map ConnSt.isLive) = some false := by
+  intro i hi hrw
+  rw [List.getElem?_eq_getElem hi]
+  cases hl : s.core.conns[i].isLive with
+  | false => simp [hl]
+  | true =>
+    exact absurd (C07_held_open_is_current h i (by rw [List.getElem?_eq_getElem hi]; simp [hl])) hrw
+
+/-- non-vacuity: transport 0 was abandoned by `reset_connection`; transport 1 is current -/
+example : ∃ s, Reachable s ∧ 0 < s.core.conns.length ∧ s.core.rw ≠ some 0 ∧ s.core.rw = some 1 :=
+  ⟨_, ⟨[.apiOpen, .run 1 .go, .run 1 .openOk, .run 1 .go, .apiReset, .envLostRan 0, .run 3 .go, .run 3 .go,
+        .run 4 .go, .run 4 .openOk], rfl⟩, by decide⟩
+
+/-- `is_connected` is set exactly when the client has a current reader/writer -/
+theorem C07_connected_iff_current {s : Sys} (h : Reachable s) : s.core.isConnected = s.core.rw.isSome :=
+  (inv_reachable h).core.conn_rw
+
+/-- non-vacuity: a reachable connected state -/
+example : ∃ s, Reachable s ∧ s.core.isConnected = true ∧ s.core.rw = some 0 :=
+  ⟨_, ⟨[.apiOpen, .run 1 .go, .run 1 .openOk], rfl⟩, by decide⟩
+
+/-- while `_connecting` is set the client is not connected -/
+theorem C07_connecting_excludes_connected {s : Sys} (h : Reachable s) :
+    s.core.connecting = true → s.core.isConnected = false :=
+  (inv_reachable h).core.connecting
+
+/-- non-vacuity: a reachable state with `_connecting` set -/
+example : ∃ s, Reachable s ∧ s.core.connecting = true :=
+  ⟨_, ⟨[.apiOpen, .run 1 .go], rfl⟩, by decide⟩
+
+/-- at most one task is inside `open_connection` -/
+theorem C07_one_opening_task {s : Sys} (h : Reachable s) :
+    ∀ t t', pcAt s t = some .connOpening → pcAt s t' = some .connOpening → t = t' := by
+  intro t t' ht ht'
+  obtain ⟨k, hk, hp⟩ := pcAt_eq.mp ht
+  obtain ⟨k', hk', hp'⟩ := pcAt_eq.mp ht'
+  exact (inv_reachable h).opening_unique t t' k k' hk hk' (by rw [hp]; rfl) (by rw [hp']; rfl)
+
+/-- non-vacuity: task 1 is inside `open_connection` while a second `_connect` task (scheduled by
+    `reset_connection`) has run and given up -/
+example : ∃ s, Reachable s ∧ pcAt s 1 = some .connOpening ∧ pcAt s 3 = some .finished :=
+  ⟨_, ⟨[.apiOpen, .run 1 .go, .apiReset, .run 2 .go, .run 3 .go], rfl⟩, by decide⟩
+
+/-- … and while one is, `_connecting` is set (so `_connect` refuses to start another) -/
+theorem C07_opening_sets_connecting {s : Sys} (h : Reachable s) :
+    ∀ t, pcAt s t = some .connOpening → s.core.connecting = true := by
+  intro t ht
+  obtain ⟨k, hk, hp⟩ := pcAt_eq.mp ht
+  exact (inv_reachable h).opening_connecting t k hk (by rw [hp]; rfl)
+
+/-- non-vacuity: as above -/
+example : ∃ s, Reachable s ∧ pcAt s 1 = some .connOpening :=
+  ⟨_, ⟨[.apiOpen, .run 1 .go], rfl⟩, by decide⟩
+
+/-- the observable trace: at no point of any history are two transports open at once
+    (`opened` events not yet followed by the matching `clientClose` / `lost`) -/
+theorem C07_trace_single {s : Sys} (h : Reachable s) : atMostOneConnection s.core.trace = true :=
+  (ctr_reachable h).single
+
+/-- non-vacuity: a reachable trace with two `opened` events (the first transport closed in between) -/
+example : ∃ s, Reachable s ∧ (s.core.trace.filter (fun e => match e with | .opened _ _ => true | _ => false)).length = 2 :=
+  ⟨_, ⟨[.apiOpen, .run 1 .go, .run 1 .openOk, .run 1 .go, .apiReset, .envLostRan 0, .run 3 .go, .run 3 .go,
+        .run 4 .go, .run 4 .openOk], rfl⟩, by decide⟩
+
+/-- the transports the trace shows as open are exactly the ones the client holds open -/
+theorem C07_trace_openSet {s : Sys} (h : Reachable s) : openSet s.core.trace = liveIdx s.core.conns :=
+  (ctr_reachable h).open_eq
+
+/-- non-vacuity: in that state the trace shows exactly transport 1 as open -/
+example : ∃ s, Reachable s ∧ openSet s.core.trace = [1] :=
+  ⟨_, ⟨[.apiOpen, .run 1 .go, .run 1 .openOk, .run 1 .go, .apiReset, .envLostRan 0, .run 3 .go, .run 3 .go,
+        .run 4 .go, .run 4 .openOk], rfl⟩, by decide⟩
+
 end PyAirtouch.Props.C07
